@@ -106,7 +106,7 @@ class Twin:
                 n = sum(1 for a, _ in self.marksA if a == attr)
                 key = "%s#%d" % (attr, n)
                 named = name_array("cutA%s_%d" % (attr, n), value, record=self.defs_raw)
-                self.names[key] = named
+                self.names[key] = named.copy()          # the scene may go on to modify the stored array in place
                 self.marksA.append((attr, len(c.events)))
                 return named
             else:
